@@ -17,6 +17,11 @@
   `debug_assert_ne!(r, 0)`, the unsigned subtractions in `modinv` and in the sign placement) is an
   explicit `.error` outcome of the model; the theorems show that none of them is reachable for
   canonical inputs (each spec has the shape `… = .ok …`).
+
+  Layer link: the BigUint operators that NB.Model.ModPow (and the non-Montgomery steps of NB.montyModpow) take as the
+  mathematical `* % / - <` are replaced by their digit-vector models in NB.Model.ModPowD; NB.Props.C05D proves that
+  digit-level model equal to the one specified here and transfers every theorem below to it.  The driver runs the
+  digit-level model.
 -/
 import NB.Lemmas.ModPow
 import NB.Lemmas.Monty
